@@ -285,3 +285,35 @@ class Scheduler:
 
     def digest(self):
         return core.digest([self.recorded, [list(x[:3]) + [list(x[3]) if x[3] else None] for x in self.log[:2000]], self.fired])
+
+
+class StepGuard:
+    """Bounded-liveness guard for one operation outside the scheduler: counts line events of /repo/segno code
+    in the current thread and raises StepBudgetExceeded beyond the budget. `with StepGuard(n) as g: ...; g.steps`."""
+
+    def __init__(self, budget):
+        self.budget = budget
+        self.steps = 0
+
+    def __enter__(self):
+        guard = self
+        seg = SEGNO_DIR
+
+        def local(frame, event, arg):
+            if event == 'line':
+                guard.steps += 1
+                if guard.steps > guard.budget:
+                    raise StepBudgetExceeded('more than %d steps' % guard.budget)
+            return local
+
+        def tracer(frame, event, arg):
+            if frame.f_code.co_filename.startswith(seg):
+                return local
+            return None
+        self._old = sys.gettrace()
+        sys.settrace(tracer)
+        return self
+
+    def __exit__(self, *exc):
+        sys.settrace(self._old)
+        return False
